@@ -150,6 +150,14 @@ DED["C10"] = ("mapping.__distToNode: the distances from the matched point to the
               "candidate per epoch).",
               "the matching loop of __mapOnNetwork (candidate search, radius test, unmatched flag, HMM call, several tracks per call) and the "
               "frame on positions / timestamps are bounded only.")
+DED["C05"] = ("interpolation.__resampleTemporal: the resampling loop as a REGION contract (cut from the real function on every run), with strictly "
+              "increasing track timestamps T and non-decreasing requested instants: exactly the requested instants t with T[0] < t <= T[last] "
+              "produce an observation, one each and in order (ghost index lists), none is dropped; for an arbitrary produced observation the "
+              "bracketing fixes satisfy T[r-1] < t <= T[r], its x, y, z are the barycentric combination with weights (T[r]-t)/(T[r]-T[r-1]) and "
+              "(t-T[r-1])/(T[r]-T[r-1]) of the two bracketing fixes, and its timestamp is readUnixTime(t): well-formed and within 1 ms (C03); the "
+              "inner while loop terminates and never indexes past the last fix.",
+              "building T, prepareTimeSampling (number / list / reference track), setObsList, Track.resample's front end and the whole spatial "
+              "resampling (__resampleSpatial: abscissas k*ds on the 2-D polyline, non-decreasing timestamps): bounded only.")
 for i, b, n in [
     ("C01", "all histories of feature operations to a depth bound over a colliding name alphabet, random longer ones; run-time contract = abstract name->column map", ""),
     ("C02", "all expression trees to depth 3 over a small alphabet, random to depth 6, vectors with 0, negatives, ties, NaN; oracle = ordinary arithmetic under the documented operator table", ""),
